@@ -12,6 +12,8 @@ SUBJ = {
  "D3": "fix: commit_prove_state detects a fork",
  "D19": "fix: rollback_to_block skips the history",
  "D20": "fix: a reorg removes the pending matched blocks",
+ "D8": "fix: the child fast path checks the chain root",
+ "D24": "fix: do not prepend overlapping old headers",
 }
 log = subprocess.check_output(['git', '-C', '/repo', 'log', '--format=%h %s'], text=True).splitlines()
 def h(prefix):
